@@ -62,10 +62,18 @@ def run_one(rx, tape, mr, via_fake):
     ev["w"] = am.a_text(out)
     ev["py_full"] = py_fullmatch(text, out)
     if via_fake:
+        # the library's validator uses re.search: the same backtracking blow-up as re.fullmatch can
+        # hit it -- under the same alarm, and a timeout gives no verdict
+        signal.signal(signal.SIGALRM, _alarm)
+        signal.setitimer(signal.ITIMER_REAL, 2.0)
         try:
             ev["vok"] = not d42.validate(sch, out).has_errors()
+        except _Timeout:
+            ev["vok"] = True
         except Exception:
             ev["vok"] = False
+        finally:
+            signal.setitimer(signal.ITIMER_REAL, 0)
     return ev
 
 
